@@ -501,6 +501,86 @@ theorem new_later_option_wins (env : Env) (opts : List Opt) (h : WFopts opts) (h
   rfl
 
 
+/-- is this a `WithSchemaURL` option? -/
+def isSchemaOpt : Opt → Bool
+  | .withSchemaURL _ => true
+  | _ => false
+
+private theorem flatMap_nonschema (env : Env) (opts : List Opt) :
+    (opts.filter (fun o => !isSchemaOpt o)).flatMap (optDetectors env) = opts.flatMap (optDetectors env) := by
+  induction opts with
+  | nil => rfl
+  | cons o rest ih =>
+    have e1 : ∀ x, isSchemaOpt (.withSchemaURL x) = true := fun _ => rfl
+    have e2 : ∀ x, isSchemaOpt (.withDetectors x) = false := fun _ => rfl
+    have e3 : ∀ x, isSchemaOpt (.withAttributes x) = false := fun _ => rfl
+    have e4 : isSchemaOpt .withFromEnv = false := rfl
+    have e5 : ∀ x, isSchemaOpt (.withBuiltin x) = false := fun _ => rfl
+    cases o <;> simp [List.filter_cons, e1, e2, e3, e4, e5, optDetectors, ih]
+
+private theorem schema_fold_nonschema (opts : List Opt) (s : Bytes) :
+    (opts.filter (fun o => !isSchemaOpt o)).foldl (fun s o => match o with | .withSchemaURL x => x | _ => s) s = s := by
+  induction opts with
+  | nil => rfl
+  | cons o rest ih =>
+    have e1 : ∀ x, isSchemaOpt (.withSchemaURL x) = true := fun _ => rfl
+    have e2 : ∀ x, isSchemaOpt (.withDetectors x) = false := fun _ => rfl
+    have e3 : ∀ x, isSchemaOpt (.withAttributes x) = false := fun _ => rfl
+    have e4 : isSchemaOpt .withFromEnv = false := rfl
+    have e5 : ∀ x, isSchemaOpt (.withBuiltin x) = false := fun _ => rfl
+    cases o <;> simp [List.filter_cons, e1, e2, e3, e4, e5, ih]
+
+/-- **option order in `resource.New`**, for any mix of `WithSchemaURL`, `WithAttributes`, `WithFromEnv`,
+`WithDetectors` and built-in options in any order:
+(i) only the LAST `WithSchemaURL` counts and where the schema options stand among the others is
+irrelevant (`New(opts)` = `New(WithSchemaURL(last), the other options in their order)`);
+(ii) per key the LAST option (and within an option the last detector) that provides it wins;
+(iii) the result reports a schema conflict iff a detector did or folding the kept resources' schema
+URLs from that last `WithSchemaURL` conflicts; without conflict the schema URL is that fold, with
+one it is empty — the attributes are unaffected either way. -/
+theorem new_option_order (env : Env) (opts : List Opt) (h : WFopts opts) (he : WFenv env) :
+    newResource env opts =
+      newResource env (Opt.withSchemaURL (schemaOf opts) :: opts.filter (fun o => !isSchemaOpt o)) ∧
+    (∀ k, lookup (newResource env opts).res.attrs k =
+      lookupLast (((opts.flatMap (optDetRef env)).filterMap keptRes).flatMap (·.attrs)) k) ∧
+    ((newResource env opts).conflictSeen =
+      (((opts.flatMap (optDetRef env)).filterMap detErr).any (·.isConflict) ||
+        (((opts.flatMap (optDetRef env)).filterMap keptRes).foldl schemaStep (schemaOf opts, false)).2)) ∧
+    ((newResource env opts).conflictSeen = false → (newResource env opts).res.schema =
+      (((opts.flatMap (optDetRef env)).filterMap keptRes).foldl schemaStep (schemaOf opts, false)).1) ∧
+    ((newResource env opts).conflictSeen = true → (newResource env opts).res.schema = []) := by
+  refine ⟨?_, (new_later_option_wins env opts h he).1, ?_, ?_, ?_⟩
+  · obtain ⟨a1, a2⟩ := foldl_applyOpt env opts {}
+    obtain ⟨b1, b2⟩ := foldl_applyOpt env (Opt.withSchemaURL (schemaOf opts) :: opts.filter (fun o => !isSchemaOpt o)) {}
+    unfold newResource
+    show detect (opts.foldl (applyOpt env) {}).schemaURL (opts.foldl (applyOpt env) {}).detectors =
+      detect ((Opt.withSchemaURL (schemaOf opts) :: opts.filter (fun o => !isSchemaOpt o)).foldl (applyOpt env) {}).schemaURL
+        ((Opt.withSchemaURL (schemaOf opts) :: opts.filter (fun o => !isSchemaOpt o)).foldl (applyOpt env) {}).detectors
+    rw [a1, a2, b1, b2]
+    simp only [List.flatMap_cons, optDetectors, List.nil_append, flatMap_nonschema, List.foldl_cons,
+      schema_fold_nonschema]
+    rfl
+  · rw [new_spec env opts h he]; rfl
+  · intro hc
+    rw [new_spec env opts h he] at hc ⊢
+    simp only [newRef, detectRef] at hc ⊢
+    rw [hc]; simp
+  · intro hc
+    rw [new_spec env opts h he] at hc ⊢
+    simp only [newRef, detectRef] at hc ⊢
+    rw [hc]
+    have : (!((opts.flatMap (optDetRef env)).filterMap detErr).isEmpty ||
+        (((opts.flatMap (optDetRef env)).filterMap keptRes).foldl schemaStep (schemaOf opts, false)).2) = true := by
+      rcases Bool.or_eq_true _ _ |>.mp hc with h1 | h1
+      · obtain ⟨e, he', _⟩ := List.any_eq_true.mp h1
+        have : ((opts.flatMap (optDetRef env)).filterMap detErr).isEmpty = false := by
+          cases hl : (opts.flatMap (optDetRef env)).filterMap detErr with
+          | nil => rw [hl] at he'; cases he'
+          | cons _ _ => rfl
+        simp [this]
+      · simp [h1]
+    simp [this]
+
 /-! ### session 3: `detect` = left fold of `Merge`; StringDetector; built-in options; Default() -/
 
 private theorem mergeFold_cons (acc : Res × Bool) (x : Option Res) (xs : List (Option Res)) :
@@ -753,5 +833,11 @@ example : defaultSeq none [exEnv, { attrs := [], svc := [] }] =
 example : keyOK [] = true ∧ keyOK [0xC5, 0xA1] = true ∧ keyOK [0x61, 0x20, 0x62] = true ∧ keyOK [0xff] = true ∧
     keyOK [0x20, 0x61] = false ∧ keyOK [0x61, 0xC2, 0xA0] = false ∧ keyOK [0x61, 0x3D] = false := by decide
 example : renderEnv [([], [0x20]), ([0x61, 0x20, 0x62], [])] = [0x3d, 0x25, 0x32, 0x30, 0x2c, 0x61, 0x20, 0x62, 0x3d] := by decide
+
+/-- schema options in the middle and twice, attributes, a detector and a built-in: the last schema URL counts, later options win -/
+example : (newResource { attrs := [], svc := [] }
+      [.withAttributes [⟨[0x6b], .int 1⟩], .withSchemaURL [1], .withDetectors [some ⟨some ⟨[⟨[0x6b], .int 2⟩], [2]⟩, none⟩],
+       .withSchemaURL [2], .withBuiltin .host, .withAttributes [⟨[0x61], .bool true⟩]]).res =
+    ⟨[⟨[0x61], .bool true⟩, ⟨[0x6b], .int 2⟩], [2]⟩ := by decide
 
 end Otel.C19
